@@ -48,6 +48,12 @@ Re-run: `tools/run_all_seeds.sh` (scratch worktree of /repo HEAD, nothing in /re
 * **C29-working-id-by-name** -- needs "no entry of the shuffled list is lost by the move-to-front" (a permutation
   argument over a struct slice with `append`); the clause is true on the unchanged tree but no solver proved it within
   4 minutes, so it is not claimed. `keep_all` (list untouched until the working id is found) is proved.
+* **C29-working-id-tried-twice** (round 8) -- dropping `helloIDFound = true` makes Dial prepend the working id although
+  it is configured. The loop half (`not_yet`: no entry seen so far equals the working id while it is not found) is
+  proved; the deciding half at the entry of the dial loop ("one more attempt than configured ids only if no entry
+  after the first equals the working id") goes through `append([]ClientHelloID{w}, ids...)` of a struct slice and
+  timed out on the unchanged tree, so it is not claimed (a first version that used `atloop(0, len(helloIDs))` was
+  vacuous: `atloop` resolves the variable to its current SSA value; removed).
 * **C05-stale-padding-second-marshal** -- `UtlsPaddingExtension.Update` calls the user-supplied `GetPaddingLen`
   function value, whose effects a contract cannot bound, so only the `GetPaddingLen == nil` case is specified; the
   change is in how the functor's answer is stored.
